@@ -498,12 +498,21 @@ func (ex *Exec) enterLoop(fr *Frame, li *loopInfo, states []*State, conds []Term
 		allocs = append(allocs, a)
 	}
 	sort.Slice(allocs, func(i, j int) bool { return allocs[i].Name() < allocs[j].Name() })
+	narrowed := ex.invariantDynTypes(fr, ls)
 	for _, a := range allocs {
 		if _, live := pre.locals[a]; !live {
 			// declared inside the loop: no value carried around the back edge
 			continue
 		}
-		st.locals[a] = ex.freshVal(a.Comment, a.Type().(*types.Pointer).Elem(), pre)
+		v := ex.freshVal(a.Comment, a.Type().(*types.Pointer).Elem(), pre)
+		if dt, ok := narrowed[a.Comment]; ok {
+			// an invariant conjunct typeis(x, T) fixes the dynamic type of this interface local: keep it syntactic
+			// so that method calls on it are resolved statically (the conjunct itself is proved like any invariant)
+			if sc, isSc := v.(Scalar); isSc && sc.T.Sort == SIface {
+				v = Scalar{App(SIface, "mk-iface", ex.vc.typeID(dt), IfVal(sc.T)), sc.Ty}
+			}
+		}
+		st.locals[a] = v
 	}
 	for it := range modIters {
 		if _, live := pre.iters[it]; live {
@@ -626,6 +635,37 @@ func (ex *Exec) closeLoop(fr *Frame, li *loopInfo, from *ssa.BasicBlock, cond Te
 			o.Descr = ls.Decreases.Text
 		}
 	}
+}
+
+// invariantDynTypes: the interface-typed locals whose dynamic type a top-level invariant conjunct typeis(x, T) fixes.
+func (ex *Exec) invariantDynTypes(fr *Frame, ls *LoopSpec) map[string]types.Type {
+	out := map[string]types.Type{}
+	var walk func(e Expr)
+	walk = func(e Expr) {
+		switch x := e.(type) {
+		case EBinary:
+			if x.Op == "&&" {
+				walk(x.X)
+				walk(x.Y)
+			}
+		case ECall:
+			if id, ok := x.Fun.(EIdent); ok && id.Name == "typeis" && len(x.Args) == 2 {
+				if v, ok := x.Args[0].(EIdent); ok {
+					if te, err := exprToType(x.Args[1]); err == nil {
+						if t, err := ex.prog.lookupType(te, fnPkg(fr.fn)); err == nil {
+							out[v.Name] = t
+						}
+					}
+				}
+			}
+		}
+	}
+	for _, inv := range ls.Invariants {
+		if inv.E != nil {
+			walk(inv.E)
+		}
+	}
+	return out
 }
 
 // dryRunLoop executes the loop body once on a scratch copy to learn which heaps it writes.
